@@ -159,6 +159,8 @@ def body_main(template, mode):
                 u = _mk(cells + [broad])
             elif slot == 'pre':
                 u = _mk([broad] + cells)
+            elif slot.startswith('ins'):
+                u = _mk(cells[:int(slot[3:])] + [broad] + cells[int(slot[3:]):])
             else:
                 u = _mk(cells[:int(slot)] + [broad] + cells[int(slot) + 1:])
             R.partial = {'inputs': {'s': s, 'u': u}}
@@ -312,6 +314,8 @@ def run(chk, only=None):
     for t in base_near:
         n = len(t)
         slots = [str(i) for i in (sorted(rng.sample(range(n), min(3, n))) if quick else range(n))] + ['app', 'pre']
+        if n > 1:
+            slots += ['ins%d' % i for i in (sorted(rng.sample(range(1, n), min(2, n - 1))) if quick else range(1, n))]
         primed += [('primed@%s' % sl, t) for sl in slots]
     if only:
         primed = [(m_, t) for (m_, t) in primed if only in T.show(t)] if only != 'primed' else primed
@@ -339,7 +343,7 @@ def run(chk, only=None):
                                    'implement-weight or hurdle-spec group; append g/G to a weight group',
                   'near_miss': 'one slot (or one extra leading/trailing char) ranges over %d chars' % len(NEAR_MISS_ALPHABET),
                   'templates_history': len(primed),
-                  'history': 'call sequences of three (u, its sibling spelling s that differs in one slot over the near-miss alphabet, u again) from the '
+                  'history': 'call sequences of three (u, its sibling spelling s that differs in one slot - replaced, inserted, appended or prepended - over the near-miss alphabet, u again) from the '
                              'restored library state; stores under a symbolic key go to a per-path table'}
     chk.outside = ['digit runs longer than 3 (x+) / 2 (x*); more than %d optional whitespace run(s) filled per template in the closure clauses' % rule_main.max_ws,
                    'characters outside the per-class representative domains (e.g. the other ~600 Unicode decimal digits)',
